@@ -4,7 +4,8 @@
 // Translated:
 //   dv/config/config.go      const CostInfinity, NlsrOrigin                         -> cost_infinity, nlsr_origin
 //   dv/table/prefix_table.go  publishOp: the condition guarding pt.publishSnap()      -> pub_snap_test snapshotAt seq
-//   dv/dv/prefix_sync.go      prefixDataFetch: the expression assigned to isSnap     -> fetch_snap_test latest known
+//   dv/dv/prefix_sync.go      prefixDataFetch: the expression assigned to isSnap     -> fetch_snap_test latest known,
+//                                                                                       fetch_threshold (its literal)
 // Conditions are translated structurally: uint64 `-` becomes u64_sub (wraps modulo 2^64), `+` u64-wrapping add,
 // comparisons become N comparisons, integer literals stay. Anything outside this grammar aborts the translation
 // (the check then reports that the obligation no longer holds for the code as written).
@@ -184,6 +185,20 @@ func main() {
 	if fetchExpr == nil {
 		die("prefixDataFetch: isSnap assignment not found")
 	}
+	// the numeric threshold of the fetch rule: the only integer literal of that expression
+	fetchThr := ""
+	ast.Inspect(fetchExpr, func(n ast.Node) bool {
+		if l, ok := n.(*ast.BasicLit); ok && l.Kind == token.INT {
+			if fetchThr != "" {
+				die("prefixDataFetch: more than one integer literal in the isSnap expression")
+			}
+			fetchThr = l.Value
+		}
+		return true
+	})
+	if fetchThr == "" {
+		die("prefixDataFetch: no integer literal in the isSnap expression")
+	}
 	fetchSrc := src(fset, fetchExpr)
 	fetchCoq := tr(fset, fetchExpr, map[string]string{"router.Latest": "latest", "router.Known": "known"})
 
@@ -200,5 +215,7 @@ Definition nlsr_origin : N := %s.
 Definition pub_snap_test (snapshotAt seq : N) : bool := %s.
 (* dv/dv/prefix_sync.go prefixDataFetch: isSnap := %s *)
 Definition fetch_snap_test (latest known : N) : bool := %s.
-`, inf, origin, pubSrc, pubCoq, fetchSrc, fetchCoq)
+(* the integer literal of that expression *)
+Definition fetch_threshold : N := %s.
+`, inf, origin, pubSrc, pubCoq, fetchSrc, fetchCoq, fetchThr)
 }
